@@ -208,6 +208,27 @@ def rule_once(chk):
                 ok = then_new and else_contents and idv is not None
         chk.ob("C12.once/empty-iff-marked", ok, "a #pragma once file contributes empty contents on later loads, others their contents" if ok else
                "FileLoader::load no longer returns empty contents exactly for ids in pragma_once_files", where(ld))
+    if ld:
+        # one id per requested name: the file-id cache is looked up and filled under the requested file name itself, so a
+        # file reached twice (from any including file) keeps the id under which #pragma once was recorded
+        import thirflow as TF
+        tr = TF.Tracer(f, max_depth=1)
+        name_param = None
+        for i_, p_ in enumerate(ld["params"]):
+            if "str" in p_.get("ty", "") and p_.get("pat", {}).get("k") == "Bind":
+                name_param = i_
+                break
+        keys = []
+        for c in F.exprs(ld["thir"], "Call"):
+            nm = short(c.get("fn") or "")
+            if nm in ("get", "insert", "entry", "contains_key") and c.get("args") and "HashMap" in (c.get("fn") or "") and \
+                    "FileId" in (c["args"][0].get("ty", "") + F.strip(c["args"][0]).get("ty", "")):
+                org = tr.trace(ld, c["args"][1], ())
+                keys.append((nm, org))
+        ok = name_param is not None and len(keys) >= 2 and all(o and all(x[0] == "param" and x[2] == name_param and not x[3] for x in o) for _, o in keys)
+        chk.ob("C12.once/one-id-per-name", ok, "the file-id cache is read and written under the requested name (%d accesses)" % len(keys) if ok else
+               "the file-id cache of FileLoader::load is keyed by %s instead of the requested file name: one file can be registered under two ids, and #pragma once (recorded per id) then lets it be pasted twice"
+               % sorted({TF.describe(x) for _, o in keys for x in o} or {"?"}), where(ld), sample={"accesses": [k for k, _ in keys]})
     pc = f.fn("preprocess_command", PP)
     if pc:
         params = {p["pat"]["name"]: p["pat"]["id"] for p in pc["params"] if p.get("pat", {}).get("k") == "Bind"}
